@@ -34,6 +34,22 @@ MUTANTS = {
         ('budget_check_off', r'if self\.memory_usage_bytes \+ message_len > self\.max_memory_usage_bytes \{', 'if self.memory_usage_bytes > self.max_memory_usage_bytes {'),
         ('cursor_skips', r'self\.oldest_pending_message_id \+= 1;\n(\s+)self\.memory_usage_bytes', r'self.oldest_pending_message_id += 2;\n\1self.memory_usage_bytes'),
     ],
+    'U5': [
+        ('timestamp_on_completion', r'self\.slices_last_received\.remove\(&slice\.message_id\);', ''),
+        ('discard_after_off', r'if current_time - \*last_received >= DISCARD_AFTER \{', 'if current_time - *last_received > DISCARD_AFTER {'),
+        ('budget_check_dropped', r'if self\.memory_usage_bytes \+ message_len > self\.max_memory_usage_bytes \{', 'if false {'),
+        ('memory_not_released_on_discard', r'self\.memory_usage_bytes -= slice\.num_slices \* SLICE_SIZE;', ''),
+        ('message_counted_twice', r'self\.memory_usage_bytes \+= message\.len\(\);\n(\s+)self\.messages\.push_back\(message\);', r'self.memory_usage_bytes += message.len(); self.memory_usage_bytes += message.len();\n\1self.messages.push_back(message);'),
+    ],
+    'U9': [
+        ('resend_early', r'if current_time - \*last_sent < resend_time \{', 'if current_time - *last_sent > resend_time {'),
+        ('acked_slice_resent', r'if acked\[i\] \{', 'if false {'),
+        ('budget_not_charged_small', r'\*available_bytes -= message\.len\(\) as u64;', ''),
+        ('slice_budget_check', r'if \*available_bytes < SLICE_SIZE as u64 \{', 'if *available_bytes < 0 {'),
+        ('timestamp_not_recorded', r'last_sent\[i\] = Some\(current_time\);', ''),
+        ('wrong_payload', r'let start = i \* SLICE_SIZE;', 'let start = 0;'),
+        ('sequence_not_advanced', r'(slice,\n\s+\}\);\n\s+)\*packet_sequence \+= 1;', r'\1'),
+    ],
     'U6': [
         ('dup_slice_ack_counts', r'if acked\[slice_index\] \{', 'if false {'),
         ('release_early', r'if \*num_acked_slices == \*num_slices \{', 'if *num_acked_slices + 1 >= *num_slices {'),
